@@ -20,6 +20,7 @@ import ast
 import os
 
 from .. import translate
+from . import normalize
 
 MDM = "fairlearn/metrics/_make_derived_metric.py"
 
@@ -159,7 +160,7 @@ def lift_call(call):
 
 @translate.lifter
 def lift(repo):
-    tree = ast.parse(open(os.path.join(repo, MDM)).read())
+    tree = normalize.parse(open(os.path.join(repo, MDM)).read())
     cls = next((n for n in tree.body if isinstance(n, ast.ClassDef) and n.name == "_DerivedMetric"), None)
     if cls is None:
         raise U("_DerivedMetric not found")
